@@ -41,6 +41,24 @@ def rand_family(rng, nsrc=None, nkeys=None, alpha=None, tokbase=1, maxlen=3):
     return fam
 
 
+def prefix_related_values(fam, rng):
+    """for dupsort runs: equal keys in different sources get values that are proper prefixes / extensions of each other
+    (the comparison of such values depends on their exact lengths)"""
+    owners = {}
+    for si, src in enumerate(fam):
+        for ei, (k, toks) in enumerate(src):
+            owners.setdefault(k, []).append((si, ei))
+    for k, occ in owners.items():
+        if len(occ) < 2 or rng.random() < 0.3:
+            continue
+        base = fam[occ[0][0]][occ[0][1]][1][:1]
+        lens = list(range(1, len(occ) + 1))
+        rng.shuffle(lens)
+        for (si, ei), n in zip(occ, lens):
+            fam[si][ei] = (k, [base[0] + j for j in range(n)] if n > 1 else list(base))
+    return fam
+
+
 def fam_to_tla(fam):
     def ent(k, toks):
         return "[k |-> %s, v |-> %s]" % (shapes.tla_bytes(k), shapes.tla_bytes(tok_bytes(toks)))
